@@ -122,11 +122,12 @@ def eval_session(model, case):
     s0 = D.build(spec)
     min0 = D.flat(s0.minimizer())
     ctl = case.get("ctl")
-    real = D.run_history(spec, ops, st, ct, clock0, ctl=ctl)
+    nans = case.get("nans")
+    real = D.run_history(spec, ops, st, ct, clock0, ctl=ctl, nans=nans)
     opts = model_options(model, spec.get("kwargs", {}))
     mres = model.call(
         "session", iter0=opts["iter0"], nanstop=opts["nanstop"], clock=clock0, ops=ops, stepTicks=st[: n + 1], cbTicks=ct[: n + 1],
-        vars=twin["fin"] + [[]], ctl=[None if c == "raise" else c for c in (ctl or [])], raises=[c == "raise" for c in (ctl or [])], disp=D.display_opts(spec.get("kwargs", {}).get("itstat_options")),
+        vars=twin["fin"] + [[]], ctl=[None if c == "raise" else c for c in (ctl or [])], raises=[c == "raise" for c in (ctl or [])], nans=(nans or []), disp=D.display_opts(spec.get("kwargs", {}).get("itstat_options")),
     )
     bundle = {"twin": twin, "real": real, "model": mres, "min0": min0}
     custom = spec.get("kwargs", {}).get("itstat_options") in ("custom", "custom-same")
@@ -148,7 +149,7 @@ def eval_session(model, case):
                 if ob[key] != mo[key]:
                     return mm(key, ob[key], mo[key]), bundle
         elif o["op"] == "solve":
-            for key in ("outcome", "itnum", "clock", "steps", "elapsed", "running") + (("maxiter",) if ob["outcome"] == "ok" else ()):
+            for key in ("outcome", "itnum", "clock", "steps", "elapsed", "running", "nanstop") + (("maxiter",) if ob["outcome"] == "ok" else ()):
                 if ob[key] != mo[key]:
                     return mm(key, ob[key], mo[key]), bundle
             if len(ob["rows"]) != len(mo["rows"]):
@@ -232,8 +233,8 @@ def session_oracle(case):
     n = D.max_steps(ops)
     twin = D.twin_tables(spec, n)
     min0 = D.flat(D.build(spec).minimizer())
-    real = D.run_history(spec, ops, st, ct, clock0, ctl=case.get("ctl"))
-    r = G.solve_oracle(spec, ops, st, ct, real["obs"], twin, min0, ctl=case.get("ctl"))
+    real = D.run_history(spec, ops, st, ct, clock0, ctl=case.get("ctl"), nans=case.get("nans"))
+    r = G.solve_oracle(spec, ops, st, ct, real["obs"], twin, min0, ctl=case.get("ctl"), nans=case.get("nans"))
     if r is None and real["fresh_len"] != 0:
         r = {"fails": f"a freshly constructed optimiser already holds {real['fresh_len']} statistics records"}
     if r is None and real["opts_unchanged"] is not True:
@@ -241,7 +242,8 @@ def session_oracle(case):
     if r is None and real["transpose_ok"] is not True:
         r = {"fails": "history(transpose=True) is not the transpose of history()"}
     if r is not None:
-        r = {"spec": spec, "ops": ops, "step_ticks": st, "cb_ticks": ct, **({"ctl": case["ctl"]} if case.get("ctl") else {}), **r}
+        r = {"spec": spec, "ops": ops, "step_ticks": st, "cb_ticks": ct, **({"ctl": case["ctl"]} if case.get("ctl") else {}),
+             **({"nans": case["nans"]} if case.get("nans") else {}), **r}
     return r
 
 
@@ -272,7 +274,7 @@ def shrink_session(model, case, mis):
 
 def session_key(case):
     sp = case["spec"]
-    return json.dumps([sp["cls"], sp["block"], sp.get("solver"), sp.get("nan"), sp.get("kwargs"), sp.get("reuse"), case["ops"], case.get("ctl")], sort_keys=True)
+    return json.dumps([sp["cls"], sp["block"], sp.get("solver"), sp.get("nan"), sp.get("kwargs"), sp.get("reuse"), case["ops"], case.get("ctl"), case.get("nans")], sort_keys=True)
 
 
 def check_session(ctx, model, case, origin="gen"):
@@ -295,6 +297,8 @@ def check_session(ctx, model, case, origin="gen"):
         if dopt["display"]:
             ctx.count(f"display:period={dopt['period']} shift={int(dopt['shift_cycles'])} overwrite={int(dopt['overwrite'])}")
             ctx.count("display:characters compared", sum(len(c.get("printed_text", "")) for c in bundle["real"]["obs"] if c.get("op") == "solve"))
+    if case.get("nans"):
+        ctx.count("session:callbacks assign nanstop")
     if spec.get("reuse"):
         ctx.count(f"session:optimisers built earlier from the same options object={spec['reuse']}")
     if case.get("ctl"):
@@ -368,6 +372,8 @@ def gen_session(ctx, cls=None, max_ops=None):
     ctl = G.gen_ctl(rng, n)
     if ctl is not None:
         case["ctl"] = ctl
+    elif rng.random() < 0.3:
+        case["nans"] = G.gen_nans(rng, n)  # callbacks that assign optimizer.nanstop (and nothing else)
     return case
 
 
